@@ -72,8 +72,12 @@ def gen(rng, k, sms):
             if n == 0:
                 call['n'] = n = 1
         calls.append(call)
+        if pool['keep_alive'] and rng.random() < 0.4:
+            # apply tasks still in flight when the next call (with its own bar) starts: they are not work items of that call
+            calls.append({'kind': 'apply_batch', 'fire_and_forget': True,
+                          'jobs': [{'id': i, 'args': [1000 * (j + 1) + 800 + i], 'cbs': [False, False]} for i in range(rng.choice([2, 4]))]})
     calls.append({'kind': 'stop_and_join'})
-    return {'id': f'b{k}', 'pool': pool, 'calls': calls, 'budget': 60, 'behaviour': {}, 'style': style,
+    return {'id': f'b{k}', 'pool': pool, 'calls': calls, 'budget': 60, 'behaviour': {'task': [{'at': 1000 * q + 800 + i, 'do': 'sleep', 's': 0.25} for q in range(1, 5) for i in range(4)]}, 'style': style,
             'env': {'VERIF_TASK_SLEEP': rng.choice(['0', '0.005', '0.02'])}, 'want_leaks': False}
 
 
@@ -102,10 +106,10 @@ def oracle(rec):
         if msg:
             return f"call base={c['base']} with a progress bar: {msg}"
         if c['input'] == 'ndarray':
-            items = sum(1 for e in task_events if 'np_len' in e and e.get('first') is not None and c['base'] <= e['first'] < c['base'] + 1000)
+            items = sum(1 for e in task_events if 'np_len' in e and e.get('first') is not None and c['base'] <= e['first'] < c['base'] + 500)
         else:
             items = sum(1 for e in task_events if e.get('args') and e['args'][1] and isinstance(e['args'][1][0], int)
-                        and c['base'] <= e['args'][1][0] < c['base'] + 1000)
+                        and c['base'] <= e['args'][1][0] < c['base'] + 500)
         if c.get('exit') and 'exit_results' in o:
             # showing the bar leaves exit results alone: one per worker_exit invocation of this pool so far is checked by C11
             pass
